@@ -281,7 +281,7 @@ def bfs(graph, depth, mapper=map, task_args=None, max_states=None):
     s0 = state_of(graph, ctx0)
     seen = {s0}
     frontier = [()]
-    stats = {"states": 1, "transitions": 0, "replays": 0, "violations": [], "per_depth": [], "capped": False, "outcomes": {}}
+    stats = {"states": 1, "transitions": 0, "replays": 0, "violations": [], "per_depth": [], "capped": False, "outcomes": {}, "samples": []}
     for d in range(depth):
         if not frontier:
             break
@@ -295,6 +295,8 @@ def bfs(graph, depth, mapper=map, task_args=None, max_states=None):
                 stats["transitions"] += 1
                 stats["replays"] += 1
                 stats["outcomes"][tag] = stats["outcomes"].get(tag, 0) + 1
+                if len(h) == d and (len(stats["samples"]) < 2 * (d + 1)) and idx in (0, len(graph.events) // 2):
+                    stats["samples"].append({"history": [graph.events[i][0] for i in h], "event": graph.events[idx][0], "result": tag})
                 for v in viol:
                     stats["violations"].append(([graph.events[i][0] for i in h], graph.events[idx][0], v["finding"], v["msg"]))
                 if st not in seen:
